@@ -16,8 +16,9 @@ ID = 'C16'
 LEAN_MODULES = ['Pfst.Props.C16']
 THEOREMS = [
     'Pfst.C16.scopeWalk_eq_spec_partial', 'Pfst.C16.ownedWalk_eq_owned', 'Pfst.C16.scopeWalk_filtered',
+    'Pfst.C16.scopeWalk_back_perm', 'Pfst.C16.scopeWalk_back_eq_spec', 'Pfst.C16.scopeWalk_replace',
     'Pfst.C16.scopes_partition', 'Pfst.C16.symbols_partial', 'Pfst.C16.scopeWalk_false_lambdaWalrus',
-    'Pfst.Scope.walkRoot_eq', 'Pfst.Scope.step_ok', 'Pfst.Scope.next_ok', 'Pfst.Scope.mStep_snd', 'Pfst.Scope.fold_sym',
+    'Pfst.Scope.walkRoot_eq', 'Pfst.Scope.step_ok', 'Pfst.Scope.mStep_snd', 'Pfst.Scope.mStep_emit', 'Pfst.Scope.fold_sym',
 ]
 RULE = ('programs = hand-written scope programs (c16_gen.FIXED: every binder kind, every expression kind as first iterable, '
         'walrus/lambda/comprehension nestings, PEP 695 forms) + random scope-heavy programs (c16_gen.SGen: nested '
@@ -28,14 +29,24 @@ RULE = ('programs = hand-written scope programs (c16_gen.FIXED: every binder kin
         'Lean model on the translated tree; (b) sweep: real walk node set vs a reference scope analysis written from the '
         'language reference over plain ast, real scope_symbols vs that reference and vs symtable.symtable of the same '
         'program (comprehension displays rewritten as generator expressions to undo PEP 709 inlining).  distinct = distinct '
-        '(program, scope); non-trivial = the scope has a nested scope, a header part or a declaration')
+        '(program, scope); non-trivial = the scope has a nested scope, a header part or a declaration.  Round 3: every walk '
+        'in BOTH directions (set(back) == set(forward) == reference); a deterministic product of header parts x '
+        'generic x decorated x def/async def/class/lambda x nesting (c16_gen.product_programs, 156 programs) and '
+        'corpus.hard_snippets(); scope walks during which yielded nodes are replaced by a node of another scope kind '
+        '(deterministic kind x kind product on c16_gen.MUT_TEMPLATES + 2 random mutated walks per program), judged on the '
+        'final source and compared with the model walk of the final tree')
 TRUSTED = [
     'modelled: _ScopeContext.create/stack_funcdef/stack_ClassDef/stack_Lambda/stack_arguments/stack_arg/stack_type_param/'
-    'stack_comprehension/walk_Comp and the scope branch of walk (forward, on="enter", no send()); scope_symbols(full=True, '
-    'local=True, free=True, import_star=False) as names per class',
-    'not modelled: back=True, send(), on="leave"/"both", asts=, node lists (only names) of scope_symbols, full=False, '
-    'import_star=True; the ORDER of a comprehension root\'s multiple `if`s (stack_comprehension pushes them unreversed: the '
-    'forward walk yields them last-to-first; compared as sets for such roots, tallied as order_quirk)',
+    'stack_comprehension/walk_Comp and the scope branch of walk (forward and back=True, on="enter", no send(); replacement of '
+    'the yielded node: class re-read after the yield); scope_symbols(full=True, local=True, free=True, import_star=False) as '
+    'names per class',
+    'not modelled: send(), on="leave"/"both", asts=, node lists (only names) of scope_symbols, full=False, '
+    'import_star=True; the ORDER of the yielded nodes (compared with the model and tallied as walk_order, not judged: a '
+    'comprehension root\'s multiple `if`s come last-to-first in the forward walk, bases and keywords of a nested class are not '
+    'interleaved); walks are compared as node sets',
+    'walks with replacement: only replacements of the node just yielded, by an expression (Name/Call/Lambda/comprehensions) '
+    'or def<->class, at most 3 per walk; judged on the final source (reference analysis of ast.parse(final)) when the final '
+    'tree equals a from-scratch parse (else skipped, tallied); replacements pfst refuses are skipped',
     'the translation of real trees into the model syntax (c16_lib.to_model) uses pfst\'s syntax_ordered_children for child order',
     'PEP 695 annotation scopes are not scopes pfst knows; spec and reference follow the pfst documentation (type-parameter '
     'bounds, annotations, bases, keywords -> enclosing scope; type parameters -> the def\'s own scope; `type X[T] = v` walked as '
@@ -176,8 +187,10 @@ def _real(src):
             multi = isinstance(n, L.COMPS) and any(len(g.ifs) > 1 for g in n.generators)
             w = [ids[id(g.a)] for g in f.walk(True, self_=False, scope=True)]
             ws = [ids[id(g.a)] for g in f.walk(flt, self_=False, scope=True)] if flt is not None else None
+            wb = [ids[id(g.a)] for g in f.walk(True, self_=False, scope=True, back=True)]
+            wsb = [ids[id(g.a)] for g in f.walk(flt, self_=False, scope=True, back=True)] if flt is not None else None
             ss = f.scope_symbols(full=True)
-            scopes.append({'id': ids[id(n)], 'multi': multi, 'walk': w, 'walk_sym': ws,
+            scopes.append({'id': ids[id(n)], 'multi': multi, 'walk': w, 'walk_sym': ws, 'walk_back': wb, 'walk_sym_back': wsb,
                            'syms': {k: sorted(nm[x] for x in v) for k, v in ss.items()},
                            'names': {k: sorted(v) for k, v in ss.items()}})
     return {'f': 'C16.scopes', 'tree': tree}, scopes, ids, nodes, names, root
@@ -229,10 +242,189 @@ def _kindname(n):
     return type(n).__name__
 
 
+def _parent_field(root_ast, node):
+    """'<ParentClass>.<field>' of `node` (plain ast, for failure signatures)"""
+    for p in ast.walk(root_ast):
+        for fld, v in ast.iter_fields(p):
+            if v is node or (isinstance(v, list) and any(x is node for x in v)):
+                gp = ''
+                if isinstance(p, (ast.arguments, ast.arg, ast.keyword) + L.TYPE_PARAMS):
+                    gp = _parent_field(root_ast, p).split('.')[0] + '>'
+                return f'{gp}{type(p).__name__}.{fld}'
+    return '?'
+
+
+def _walk_check(ref, sc, walk_ids, to_id, nodes, tree, fail, prefix):
+    """the node set of one scope walk against the reference scope `sc` (non-leaf nodes)"""
+    n = sc.node
+    exp = {to_id[id(m)] for m in sc.nodes if not isinstance(m, LEAFS)}
+    allowed = set()
+    if sc.is_comp:      # documented quirk: a walk started on a comprehension yields its walrus targets
+        for m in ast.walk(n):
+            if isinstance(m, ast.NamedExpr) and ref.scope_of.get(id(m)) is not None:
+                s2 = ref.scope_of[id(m)]
+                while s2 is not None and s2 is not sc and s2.is_comp:
+                    s2 = s2.parent
+                if s2 is sc:
+                    allowed.add(to_id[id(m.target)])
+    real = {i for i in walk_ids if not isinstance(nodes[i], LEAFS)}
+    leak_ids = set()
+    for nm_, tg in ref.leak.get(id(n), {}).items():
+        for t in tg:
+            leak_ids.add(to_id[id(t)])
+    missing = exp - real
+    extra = real - exp - allowed
+    if extra & leak_ids:
+        fail('C16|walk|walrus-under-lambda-in-comp|extra-node',
+             'scope walk yields a walrus target that binds in a lambda nested in a comprehension', n,
+             {'extra_ids': sorted(extra & leak_ids)})
+        extra -= leak_ids
+    if missing or extra:
+        inv = {v: k for k, v in to_id.items()}
+        objs = {id(x): x for x in ast.walk(tree)}
+        mk = sorted(_kindname(objs[inv[i]]) for i in missing)[:3]
+        ek = sorted(_kindname(objs[inv[i]]) for i in extra)[:3]
+        fail(f'C16|{prefix}|{_kindname(n)}|{"missing:" + mk[0] if mk else "extra:" + ek[0]}',
+             f'scope walk node set differs from the language reference: missing {mk} extra {ek}', n,
+             {'missing': sorted(missing)[:10], 'extra': sorted(extra)[:10]})
+
+
+# ---- walk with replacement ----------------------------------------------------------------------------------------------
+
+_NOREPL_PARENTS = (ast.JoinedStr, ast.FormattedValue, ast.pattern, ast.match_case, ast.TypeAlias, ast.Starred, ast.keyword)
+
+
+def _eligible(g):
+    """may the yielded node be replaced by an arbitrary expression / def / class"""
+    a = g.a
+    p = g.parent.a if g.parent else None
+    if isinstance(a, (ast.FunctionDef, ast.ClassDef)):
+        return 'stmt'
+    if p is None or isinstance(p, _NOREPL_PARENTS) or isinstance(p, L.TYPE_PARAMS) or isinstance(p, ast.arg):
+        return None
+    if isinstance(a, ast.Name):
+        return 'expr' if isinstance(a.ctx, ast.Load) else None
+    if isinstance(a, (ast.Call, ast.Lambda) + L.COMPS):
+        if isinstance(p, (ast.With, ast.AsyncWith, ast.withitem, ast.Delete, ast.AugAssign, ast.AnnAssign, ast.For, ast.AsyncFor)):
+            return None
+        if isinstance(p, (ast.Assign,)) and any(a is t for t in p.targets):
+            return None
+        return 'expr'
+    return None
+
+
+def _mutated_walk(src, scope_index, plan, rng):
+    """walk scope number `scope_index` (preorder among scope nodes) with scope=True and replace yielded nodes.
+    `plan` = None: random replacements; or (target class name, replacement class name): replace the first yielded node of
+    that class.  Returns dict or None."""
+    from fst import FST
+    root = FST(src, 'exec')
+    scs = [n for n in ast.walk(root.a) if isinstance(n, (ast.Module,) + L.SCOPES)]
+    # preorder instead of ast.walk's breadth first
+    pre = []
+    def go(n):
+        if isinstance(n, (ast.Module,) + L.SCOPES):
+            pre.append(n)
+        for c in ast.iter_child_nodes(n):
+            go(c)
+    go(root.a)
+    if scope_index >= len(pre):
+        return None
+    scope = pre[scope_index].f
+    orig = {id(f) for f in scope.walk(True)}
+    yielded = []
+    repls = []
+    for g in scope.walk(True, self_=False, scope=True):
+        yielded.append(g)
+        if id(g) not in orig or len(repls) >= 3:
+            continue
+        el = _eligible(g)
+        if not el:
+            continue
+        cls = type(g.a).__name__
+        if plan is not None:
+            if cls != plan[0] or repls:
+                continue
+            new = plan[1]
+        else:
+            if rng.random() > 0.35:
+                continue
+            pool = ['FunctionDef', 'ClassDef'] if el == 'stmt' else ['Name', 'Call', 'Lambda', 'ListComp', 'GeneratorExp', 'DictComp']
+            new = rng.choice([k for k in pool if k != cls])
+        if (el == 'stmt') != (new in ('FunctionDef', 'ClassDef')):
+            continue
+        try:
+            g.replace(c16_gen.REPLACEMENTS[new])
+        except Exception as e:       # refused replacement (syntax restrictions): not this property's business
+            if type(e).__name__ in ('NodeError', 'ValueError', 'SyntaxError', 'ParseError', 'NotImplementedError'):
+                continue
+            raise
+        repls.append([cls, new, getattr(g, 'ln', None)])
+    if not repls:
+        return None
+    return {'root': root, 'scope': scope, 'yielded': yielded, 'repls': repls}
+
+
+def _mutation_case(src, scope_index, plan, seed, res):
+    """one walk with replacement, judged on the FINAL source; appends to res['fails'] / res['mut']"""
+    rng = random.Random(seed)
+    tally = res['tally']
+    wit = {'src': src, 'mutation': {'scope_index': scope_index, 'plan': plan, 'seed': seed}}
+    try:
+        m = _mutated_walk(src, scope_index, plan, rng)
+    except Exception as e:
+        import traceback
+        tb = traceback.extract_tb(e.__traceback__)
+        where = tb[-1].name if tb else '?'
+        wit['scope'] = ['?', 0, 0]
+        res['fails'].append((f'C16|walk-replace|raised|{type(e).__name__}@{where}',
+                             f'walk(scope=True) raised {type(e).__name__}: {str(e)[:120]} after the consumer replaced a yielded node', wit))
+        return
+    if m is None:
+        return
+    root, scope = m['root'], m['scope']
+    final = root.src
+    wit['final_src'] = final
+    wit['replaced'] = m['repls']
+    try:
+        tree2 = ast.parse(final)
+    except SyntaxError:
+        tally['mut_final_unparsable'] = tally.get('mut_final_unparsable', 0) + 1
+        return
+    if ast.dump(tree2) != ast.dump(root.a):
+        tally['mut_tree_mismatch'] = tally.get('mut_tree_mismatch', 0) + 1     # C01's business
+        return
+    mtree, ids, nodes, names = L.to_model(root.a, util.soc)
+    to_id = {}
+    for a, b in zip(ast.walk(tree2), ast.walk(root.a)):
+        if not isinstance(a, LEAFS):
+            to_id[id(a)] = ids[id(b)]
+    ref = TagRef(tree2)
+    sid = ids[id(scope.a)]
+    sc = next((s for s in ref.order if to_id[id(s.node)] == sid), None)
+    if sc is None:
+        return
+    got = [ids[id(g.a)] for g in m['yielded'] if g.a is not None and id(g.a) in ids]
+    wit['scope'] = [_kindname(sc.node), getattr(sc.node, 'lineno', 0), getattr(sc.node, 'col_offset', 0)]
+
+    def fail(sig, what, scope_node, extra=None):
+        w = dict(wit)
+        if extra:
+            w.update(extra)
+        res['fails'].append((sig, what + f' [after replacing {m["repls"]}]', w))
+
+    kinds = '->'.join(m['repls'][0][:2])
+    _walk_check(ref, sc, got, to_id, nodes, tree2, fail, f'walk-replace|{kinds}')
+    res['mut'].append({'case': {'f': 'C16.scopes', 'tree': mtree}, 'scope': sid, 'got': sorted(set(got)), 'src': src, 'final': final,
+                       'repls': m['repls']})
+    tally['mutated_walks'] = tally.get('mutated_walks', 0) + 1
+    tally['replacements'] = tally.get('replacements', 0) + len(m['repls'])
+
+
 def _program(arg):
     """everything for one program, in a worker: model case, real outputs, sweep failures (as plain data)"""
-    src, = arg
-    res = {'src': src, 'case': None, 'scopes': None, 'fails': [], 'tally': {}, 'nscopes': 0}
+    src, mseed, plan = (tuple(arg) + (None, None))[:3]
+    res = {'src': src, 'case': None, 'scopes': None, 'fails': [], 'tally': {}, 'nscopes': 0, 'mut': []}
     tally = res['tally']
     try:
         case, scopes, ids, nodes, names, root = _real(src)
@@ -258,40 +450,30 @@ def _program(arg):
             w.update(extra)
         res['fails'].append((sig, what, w))
 
-    # --- (1) walk node sets vs reference
+    # --- (0) walks during which the consumer replaces yielded nodes
+    if plan is not None:
+        _mutation_case(src, plan[0], tuple(plan[1:]), 0, res)
+    elif mseed is not None:
+        r0 = random.Random(mseed)
+        for _ in range(2):
+            _mutation_case(src, r0.randrange(len(scopes)), None, r0.randrange(1 << 30), res)
+
+    # --- (1) walk node sets vs reference, both directions
     for sc in ref.order:
-        n = sc.node
-        rs = by_id[to_id[id(n)]]
-        exp = {to_id[id(m)] for m in sc.nodes if not isinstance(m, LEAFS)}
-        allowed = set()
-        if sc.is_comp:      # documented quirk: a walk started on a comprehension yields its walrus targets
-            for m in ast.walk(n):
-                if isinstance(m, ast.NamedExpr) and ref.scope_of.get(id(m)) is not None:
-                    s2 = ref.scope_of[id(m)]
-                    while s2 is not None and s2 is not sc and s2.is_comp:
-                        s2 = s2.parent
-                    if s2 is sc:
-                        allowed.add(to_id[id(m.target)])
-        real = {i for i in rs['walk'] if not isinstance(nodes[i], LEAFS)}
-        leak_ids = set()
-        for nm_, tg in ref.leak.get(id(n), {}).items():
-            for t in tg:
-                leak_ids.add(to_id[id(t)])
-        missing = exp - real
-        extra = real - exp - allowed
-        if extra & leak_ids:
-            fail('C16|walk|walrus-under-lambda-in-comp|extra-node',
-                 'scope walk yields a walrus target that binds in a lambda nested in a comprehension', n,
-                 {'extra_ids': sorted(extra & leak_ids)})
-            extra -= leak_ids
-        if missing or extra:
-            inv = {v: k for k, v in to_id.items()}
-            objs = {id(x): x for x in ast.walk(tree)}
-            mk = sorted(_kindname(objs[inv[i]]) for i in missing)[:3]
-            ek = sorted(_kindname(objs[inv[i]]) for i in extra)[:3]
-            fail(f'C16|walk|{_kindname(n)}|{"missing:" + mk[0] if mk else "extra:" + ek[0]}',
-                 f'scope walk node set differs from the language reference: missing {mk} extra {ek}', n,
-                 {'missing': sorted(missing)[:10], 'extra': sorted(extra)[:10]})
+        rs = by_id[to_id[id(sc.node)]]
+        _walk_check(ref, sc, rs['walk'], to_id, nodes, tree, fail, 'walk')
+        fw = {i for i in rs['walk'] if not isinstance(nodes[i], LEAFS)}
+        bw = {i for i in rs['walk_back'] if not isinstance(nodes[i], LEAFS)}
+        if fw != bw or set(rs['walk']) != set(rs['walk_back']):
+            d = sorted(set(rs['walk']) ^ set(rs['walk_back']))
+            par = _parent_field(root.a, nodes[d[0]])
+            fail(f'C16|walk-back|{_kindname(sc.node)}|{par}',
+                 f'walk(scope=True, back=True) and the forward scope walk yield different node sets: {"only forward" if d[0] in fw or d[0] in rs["walk"] else "only backward"} '
+                 f'{[_kindname(nodes[i]) for i in d[:4]]} (first differing node sits in {par})', sc.node, {'diff_ids': d[:10]})
+        if rs['walk_sym'] is not None and set(rs['walk_sym']) != set(rs['walk_sym_back']):
+            d = sorted(set(rs['walk_sym']) ^ set(rs['walk_sym_back']))
+            fail(f'C16|walk-back|{_kindname(sc.node)}|{_parent_field(root.a, nodes[d[0]])}',
+                 f'filtered scope walk differs between directions: {[_kindname(nodes[i]) for i in d[:4]]}', sc.node, {'diff_ids': d[:10]})
         tally['walk_scopes'] = tally.get('walk_scopes', 0) + 1
 
     # --- (2) scope_symbols vs reference classes
@@ -416,17 +598,25 @@ def _programs(ctx, ngen, ncorpus, nstd):
     progs = list(c16_gen.FIXED) + c16_gen.programs(rng, ngen)
     rng2 = random.Random(ctx.rng.random())
     progs += corpus.programs(rng2, ncorpus, stdlib=nstd)
+    progs += c16_gen.product_programs()
+    progs += corpus.hard_snippets() if hasattr(corpus, 'hard_snippets') else []
     out = []
     seen = set()
+    r3 = random.Random(ctx.rng.random())
     for p in progs:
         if p not in seen and len(p) < 60000:
             seen.add(p)
-            out.append(p)
+            out.append((p, r3.randrange(1 << 30) if len(p) < 6000 else None, None))
+    # deterministic replacement product: a yielded node of every kind replaced by every other kind
+    for t, src in c16_gen.MUT_TEMPLATES.items():
+        for new in c16_gen.REPLACEMENTS:
+            if new != t and (t in ('FunctionDef', 'ClassDef')) == (new in ('FunctionDef', 'ClassDef')):
+                out.append((src, None, (1, t, new)))
     return out
 
 
 def _run(ctx, progs, do_corr=True):
-    res = pmap(_program, [(p,) for p in progs])
+    res = pmap(_program, [p if isinstance(p, tuple) else (p, None, None) for p in progs])
     res = [r for r in res if r['case'] is not None]
     # ---- correspondence with the Lean model
     if do_corr:
@@ -450,10 +640,18 @@ def _run(ctx, progs, do_corr=True):
                 d = []
                 mw, mws, mow = ms['walk'], ms['walk_sym'], ms['owned_walk']
                 rw, rws = rs['walk'], rs['walk_sym']
-                if rs['multi']:
-                    ctx.tally('order_quirk', 'comp root with >1 if')
-                    mw, mws, mow, rw = sorted(mw), sorted(mws), sorted(mow), sorted(rw)
-                    rws = sorted(rws) if rws is not None else None
+                # the property is about node SETS; the order is compared and tallied only (known order quirks: the `if`s of
+                # a comprehension root come last-to-first in the forward walk, bases / keywords of a nested class are not
+                # interleaved)
+                same_order = rw == mw and rs['walk_back'] == ms['walk_back']
+                ctx.tally('walk_order', 'same as model' if same_order else 'differs (sets equal)' if
+                          sorted(rw) == sorted(mw) and sorted(rs['walk_back']) == sorted(ms['walk_back']) else 'sets differ')
+                mw, mws, mow, rw = sorted(mw), sorted(mws), sorted(mow), sorted(rw)
+                rws = sorted(rws) if rws is not None else None
+                if sorted(rs['walk_back']) != sorted(ms['walk_back']):
+                    d.append(('walk_back', rs['walk_back'], ms['walk_back']))
+                if rs['walk_sym_back'] is not None and sorted(rs['walk_sym_back']) != sorted(ms['walk_sym_back']):
+                    d.append(('walk_sym_back', rs['walk_sym_back'], ms['walk_sym_back']))
                 if rs['id'] != ms['id'] or rw != mw:
                     d.append(('walk', rw, mw))
                 if rws is not None and rws != mws:
@@ -475,8 +673,34 @@ def _run(ctx, progs, do_corr=True):
                     if len(ctx.corr_disagreements) < 20:
                         ctx.corr_disagreements.append({'corr': name, 'src': r['src'][:600], 'scope': rs['id'], 'diff': str(d)[:800]})
                     ctx.hints.append((name, r['src']))
+        # walks with replacement: the model's walk of the FINAL tree (theorem scopeWalk_replace) vs the nodes yielded
+        name2 = 'walk(scope=True) with replaced nodes vs Pfst.Scope.walkRoot of the final tree'
+        muts = [m for r in res for m in r['mut']]
+        try:
+            mouts = ctx.lean([m['case'] for m in muts])
+        except Exception as e:
+            ctx.brk('correspondence', name2, f'driver error: {e}')
+            mouts = []
+        nmut = 0
+        for m, o in zip(muts, mouts):
+            o = o.get('out', o)
+            ms = next((x for x in o.get('scopes', []) if x['id'] == m['scope']), None)
+            if ms is None:
+                continue
+            nmut += 1
+            ctx.corr_cases += 1
+            ctx.count(('mut', m['src'], m['scope'], str(m['repls'])), True)
+            ctx.tally('replacement_kinds', '->'.join(m['repls'][0][:2]))
+            if sorted(ms['walk']) != m['got']:
+                bad += 1
+                if len(ctx.corr_disagreements) < 20:
+                    ctx.corr_disagreements.append({'corr': name2, 'src': m['src'][:400], 'final': m['final'][:400], 'repls': m['repls'],
+                                                   'only_impl': sorted(set(m['got']) - set(ms['walk']))[:10],
+                                                   'only_model': sorted(set(ms['walk']) - set(m['got']))[:10]})
+                ctx.hints.append((name2, m['src']))
         ctx.tally('correspondence_cases', name)
-        ctx.dist['correspondence_cases'][name] = ctx.corr_cases
+        ctx.dist['correspondence_cases'][name] = ctx.corr_cases - nmut
+        ctx.dist['correspondence_cases'][name2] = nmut
         if res:
             ctx.sample({'corr': name, 'src': res[0]['src'][:200], 'scopes': len(res[0]['scopes'])})
         if bad:
@@ -504,7 +728,7 @@ def correspondence(ctx):
 
 
 def search(ctx):
-    progs = [h[1] for h in ctx.hints[:50] if isinstance(h[1], str)] + _programs(ctx, 3000, 500, 60)
+    progs = [(h[1], 12345, None) for h in ctx.hints[:50] if isinstance(h[1], str)] + _programs(ctx, 3000, 500, 60)
     _run(ctx, progs, do_corr=False)
 
 
@@ -513,7 +737,12 @@ def replay(ctx, data):
     if not w:
         print('replay file names a broken obligation, not an input:', [b for b in data.get('broken', [])][:3])
         return
-    r = _program((w['src'],))
+    if w.get('mutation'):
+        mu = w['mutation']
+        r = {'fails': [], 'tally': {}, 'mut': []}
+        _mutation_case(w['src'], mu['scope_index'], tuple(mu['plan']) if mu.get('plan') else None, mu['seed'], r)
+    else:
+        r = _program((w['src'], None, None))
     want = data.get('signature')
     fails = r['fails']
     if want is not None and any(sig == want for sig, _, _ in fails):
